@@ -1,4 +1,12 @@
 -- root of the `CoolerModel` library
 import CoolerModel.Basic
 import CoolerModel.Model.Bins
+import CoolerModel.Model.FileModel
+import CoolerModel.Model.CSR
+import CoolerModel.Model.Balanced
+import CoolerModel.Model.Strings
+import CoolerModel.Model.Rename
+import CoolerModel.Model.Selectors
+import CoolerModel.Model.Balance
+import CoolerModel.Model.Split
 import CoolerModel.Props
